@@ -6,9 +6,11 @@ import (
 	"fmt"
 	"os"
 	"strconv"
+	"strings"
 
 	"mltwist/internal/consoleui/verifsim/core"
 	_ "mltwist/internal/consoleui/verifsim/memsim"
+	_ "mltwist/internal/consoleui/verifsim/movesim"
 )
 
 func main() {
@@ -21,6 +23,7 @@ func main() {
 	prop := fs.String("prop", "", "property id")
 	tier := fs.String("tier", "quick", "quick|thorough")
 	seedS := fs.String("seed", "", "VERIF_SEED (default env VERIF_SEED or 20260921)")
+	seedsS := fs.String("seeds", "", "space separated list of seeds (run: budget split, evidence aggregated)")
 	runs := fs.Int("runs", 0, "number of runs (0 = default)")
 	budget := fs.Int("budget", 0, "wall-clock budget in seconds (0 = none)")
 	workers := fs.Int("workers", 0, "worker processes (0 = NumCPU)")
@@ -53,6 +56,12 @@ func main() {
 		seed = v
 	}
 	opt := core.Options{Prop: *prop, Tier: *tier, Seed: seed, Runs: *runs, BudgetS: *budget, Workers: *workers}
+
+	for _, f := range strings.Fields(*seedsS) {
+		if v, err := strconv.ParseUint(f, 10, 64); err == nil {
+			opt.Seeds = append(opt.Seeds, v)
+		}
+	}
 
 	switch cmd {
 	case "run":
